@@ -293,4 +293,38 @@ impl<T> IterMapExt<T> for [T] {
 /// `<[T]>::to_vec`: element-wise clone
 pub assume_specification<T: Clone> [ <[T]>::to_vec ] (s: &[T]) -> (r: Vec<T>)
     ensures r@.len() == s@.len(), forall|i: int| 0 <= i < s@.len() ==> call_ensures(T::clone, (&#[trigger] s@[i],), r@[i]);
+
+/// `Result::unwrap_or`
+pub assume_specification<T, E> [ Result::<T, E>::unwrap_or ] (r: Result<T, E>, d: T) -> (out: T)
+    ensures out == (match r { Ok(v) => v, Err(_) => d });
+
+/// `.into_iter().partition(f)` (R5): (accepted, rejected) in order; `p(x)` is the value `f` returned on `x`
+pub trait PartitionExt<T>: Sized {
+    spec fn pv(&self) -> Seq<T>;
+    fn into_iter_partition<F: Fn(&T) -> bool>(self, f: F) -> (r: (Vec<T>, Vec<T>))
+        requires forall|i: int| 0 <= i < self.pv().len() ==> call_requires(f, (&#[trigger] self.pv()[i],)),
+        ensures exists|p: spec_fn(T) -> bool| r.0@ == #[trigger] self.pv().filter(p) && r.1@ == self.pv().filter(|x: T| !p(x))
+            && forall|x: T| call_ensures(f, (&x,), #[trigger] p(x));
+}
+impl<T> PartitionExt<T> for Vec<T> {
+    open spec fn pv(&self) -> Seq<T> { self@ }
+    #[verifier::external_body]
+    fn into_iter_partition<F: Fn(&T) -> bool>(self, f: F) -> (r: (Vec<T>, Vec<T>)) { unimplemented!() }
+}
+
+/// `r` was obtained by filtering `s` with some predicate that implies `q`  =>  every element of r is in s and satisfies q
+pub open spec fn elem_of<T>(s: Seq<T>, x: T) -> bool { exists|i: int| 0 <= i < s.len() && #[trigger] s[i] == x }
+pub proof fn lemma_filter_implies<T>(s: Seq<T>, r: Seq<T>, q: spec_fn(T) -> bool)
+    requires exists|p1: spec_fn(T) -> bool| r == #[trigger] s.filter(p1) && forall|x: T| #[trigger] p1(x) ==> q(x),
+    ensures forall|k: int| 0 <= k < r.len() ==> q(#[trigger] r[k]),
+        forall|k: int| 0 <= k < r.len() ==> elem_of(s, #[trigger] r[k]),
+{
+    let p1 = choose|p1: spec_fn(T) -> bool| r == #[trigger] s.filter(p1) && forall|x: T| #[trigger] p1(x) ==> q(x);
+    assert forall|k: int| 0 <= k < r.len() implies q(#[trigger] r[k]) by {
+        lemma_filter_member(s, p1, k);
+    }
+    assert forall|k: int| 0 <= k < r.len() implies elem_of(s, #[trigger] r[k]) by {
+        lemma_filter_member(s, p1, k);
+    }
+}
 } // verus!
